@@ -744,6 +744,24 @@ func (pe *PolicyEngine) AddPodByNameAndNamespace(name, ns string) (Peer, error) 
 	return &k8s.WorkloadPeer{Pod: newPod}, nil
 }
 
+// namespaceNameFromSelector returns the namespace name if the given selector requires nothing but
+// the namespace-name label to be equal to one value; otherwise returns an empty string
+func namespaceNameFromSelector(nsSelector *metav1.LabelSelector) string {
+	if len(nsSelector.MatchLabels)+len(nsSelector.MatchExpressions) != 1 {
+		return ""
+	}
+	if nsName, ok := nsSelector.MatchLabels[common.K8sNsNameLabelKey]; ok {
+		return nsName
+	}
+	if len(nsSelector.MatchExpressions) == 1 {
+		req := nsSelector.MatchExpressions[0]
+		if req.Key == common.K8sNsNameLabelKey && req.Operator == metav1.LabelSelectorOpIn && len(req.Values) == 1 {
+			return req.Values[0]
+		}
+	}
+	return ""
+}
+
 // addRepresentativePod adds a new representative pod to the policy-engine (to pe.representativePeersMap).
 // if the given namespace string (podNs) is not empty (i.e. a real (policy's) namespace name), it will be assigned to the pod's Namespace;
 // and the "namespace name" requirement of the representative pod will be stored in its RepresentativeNsLabelSelector field.
@@ -756,6 +774,16 @@ func (pe *PolicyEngine) addRepresentativePod(podNs string, objSelectors *k8s.Sin
 	nsLabelSelector := objSelectors.NsSelector
 	if nsLabelSelector == nil && podNs == "" { // should not get here as nsLabelSelector == nil should be equivalent to podNs not empty
 		return errors.New(netpolerrors.NilNamespaceAndNilNsSelectorErr)
+	}
+	if nsLabelSelector != nil && podNs == "" {
+		// a namespaceSelector which requires nothing but the namespace's name is the same set of peers as a nil namespaceSelector
+		// of a policy in that namespace; give both the same representative pod (they share the map key computed below)
+		if nsName := namespaceNameFromSelector(nsLabelSelector); nsName != "" {
+			podNs = nsName
+			if err := pe.resolveSingleMissingNamespace(podNs); err != nil {
+				return err
+			}
+		}
 	}
 	if nsLabelSelector == nil && podNs != "" {
 		// the policy's namespace may have neither a Namespace resource nor workloads in the input resources
